@@ -12,7 +12,7 @@ Decided by spec/CtxStack.tla (+ spec/TraceCtxStack.tla):
            Trees of 2-4 predicted behaviours are also executed in real threads under a deterministic
            scheduler (one probe at a time, seeded merge order).
   code -> spec
-           1-16 real threads run seeded random trees (all 28 kinds, deeper/wider than the enumeration)
+           1-16 real threads run seeded random trees (all 36 kinds, deeper/wider than the enumeration)
            concurrently; the merged probe log of each run is validated by TLC against TraceCtxStack
            (reuses the CtxStack actions; acceptance is TLC's verdict).
 """
@@ -306,7 +306,7 @@ def all_kinds():
     ks = [dict(w='cvt', rec=r, ur=u, src='none', cbd=False, lam=l) for l in (False, True) for r in (False, True)
           for u in (False, True)]
     ks += [dict(w=w, rec=False, ur=False, src='none', cbd=False, lam=False) for w in ('dnc', 'uns', 'blk', 'plain')]
-    ks += [dict(w='ic', rec=True, ur=u, src=s, cbd=c, lam=False) for s in ('cur', 'E', 'D', 'U') for c in (False, True)
+    ks += [dict(w='ic', rec=True, ur=u, src=s, cbd=c, lam=False) for s in ('cur', 'up1', 'up2', 'E', 'D', 'U') for c in (False, True)
            for u in (False, True)]
     return ks
 
@@ -339,11 +339,16 @@ def run(rep):
     WP = min(W, 8)      # runs that print one JSON line per behaviour: more workers only contend
 
     # --- vacuity: every action of the specification is taken (tiny instance, coverage on)
-    res = tlc.run_tlc('CtxStack', _cfg([1], 2, 2, 2, 'KindsTiny', True), workers=2, timeout=300, coverage=True,
-                      name='CtxStack_cov').require_ok('CtxStack coverage')
+    # and the captured-context kinds do put one context object on a stack twice with another one in between
+    res = tlc.run_tlc('CtxStack', _cfg([1], 2, 2, 2, 'KindsCov', True, extra='INVARIANT SplitReport'),
+                      workers=2, timeout=300, coverage=True, name='CtxStack_cov').require_ok('CtxStack coverage')
     missing = [a for a in ACTIONS if res.coverage.get(a, (0, 0))[0] == 0]
     if missing:
         raise common.MachineryError('CtxStack: actions never taken: %s' % missing)
+    nsplit = sum(1 for v in res.json if isinstance(v, dict) and v.get('split'))
+    if not nsplit:
+        raise common.MachineryError('CtxStack: no state with a context object entered twice below another context')
+    rep.set('model_states_with_reentered_captured_context_tiny', nsplit)
     rep.add_tlc(res)
 
     # --- design level: two threads interleaved, all invariants + Isolation
@@ -356,9 +361,10 @@ def run(rep):
 
     # --- spec -> code, exhaustive (BFS) single-thread behaviours
     if quick:
-        bfs = [(2, 2, 2, 'KindsCore', 1), (3, 2, 3, 'KindsTiny', 1)]
+        bfs = [(2, 2, 2, 'KindsCoreUp', 1), (3, 2, 3, 'KindsTiny', 1), (3, 1, 3, 'KindsUp', 1)]
     else:
-        bfs = [(3, 2, 3, 'KindsCore', 7), (4, 2, 4, 'KindsTiny', 5)]
+        bfs = [(3, 2, 3, 'KindsCore', 7), (4, 2, 4, 'KindsTiny', 5), (2, 2, 2, 'KindsCoreUp', 1),
+               (3, 2, 3, 'KindsUp', 1)]
     for (d, w, n, ks, nparts) in bfs:
         for part in range(nparts):
             res = tlc.run_tlc('CtxStack', _cfg([1], d, w, n, ks, True, nparts, part, expect=True), workers=WP,
@@ -374,7 +380,7 @@ def run(rep):
                                 predicted_log=cases[len(cases) // 2]['log']))
             del res, cases
 
-    # --- spec -> code, sampled deeper behaviours over all 28 kinds (TLC -simulate, seeded)
+    # --- spec -> code, sampled deeper behaviours over all 36 kinds (TLC -simulate, seeded)
     nsim = max(1, (2400 if quick else 48000) // W)        # -simulate num is per worker
     res = tlc.run_tlc('CtxStack', _cfg([1], 4, 3, 8, 'KindsAll', True, expect=True), workers=W, timeout=1500,
                       simulate=dict(num=nsim, depth=500), seed=seed, name='CtxStack_sim').require_ok('CtxStack simulate')
